@@ -158,6 +158,16 @@ def _call(args):
     return case, r
 
 
+def _flatten(it):
+    """a batched case returns a list of (micro-case, result): each micro-case counts as one case"""
+    for case, r in it:
+        if isinstance(r, list):
+            for c2, r2 in r:
+                yield c2, r2
+        else:
+            yield case, r
+
+
 def load_known(pid):
     """open findings of this property: signature -> {'what': text}"""
     import re
@@ -248,7 +258,8 @@ def drive(mod, tier):
                 continue
             chunk = getattr(mod, 'CHUNK', 16)
             it = pool.imap_unordered(_call, ((mod.evaluate, c) for c in cases), chunksize=chunk)
-            for case, r in it:
+            for case0, r0 in _flatten(it):
+                case, r = case0, r0
                 n += 1
                 tot['evaluations'] += 1
                 tot['transitions'] += r.get('transitions', 1)
